@@ -31,6 +31,13 @@ def check_single_exit(ctx: Ctx, rule: str, m: S.SchemeModel):
     from .common import param_mutations
 
     f = m.func
+    if getattr(m, "from_av", False):
+        # the path table was read from the builder's value: that value is one comprehension over the sorted
+        # assignments, i.e. there is no other exit (an early return would make it a conditional)
+        ctx.ok(rule, f.key("single-exit"), "the only exit returns the equations built by the one pass", f.where())
+        muts = param_mutations(f)
+        ctx.check(not muts, rule, f.key("arguments-untouched"), "the builder does not modify its arguments", f"{f.name}: " + "; ".join(w for _, w in muts[:3]) + " - a second generation with the same argument object gives another result", f.where(muts[0][0]) if muts else f.where())
+        return
     rets = [n for n in ast.walk(f.node) if isinstance(n, ast.Return)]
     last = f.node.body[-1]
     ok = len(rets) == 1 and rets[0] is last and isinstance(rets[0].value, ast.Name) and rets[0].value.id == m.result_list
@@ -44,7 +51,7 @@ def check_counter(ctx: Ctx, rule: str, m: S.SchemeModel):
     """Slot discipline: one store per derivative path at the counter, counter advanced once, after the store."""
     f = m.func
     ctx.check(
-        m.counter is not None and isinstance(m.counter_init, ast.Constant) and m.counter_init.value == 0,
+        getattr(m, "from_av", False) or (m.counter is not None and isinstance(m.counter_init, ast.Constant) and m.counter_init.value == 0),
         rule,
         f.key("counter-init"),
         "slot counter starts at 0",
